@@ -44,6 +44,8 @@ fn episode(ctx: &Ctx, case: u64, out: &mut Out) -> Result<(), (Fail, String)> {
     let dir = fresh_dir(&ctx.scratch, &format!("c{}", case));
     let mut e = Eng::new(r, &dir, conf, thr, keys, true);
     e.huge_ok = case % 8 == 5;
+    // an eighth of the episodes on a file system that completes some writes only partly
+    let short = if case % 8 == 6 { Some(crate::shim::short_env(&dir, ctx.seed ^ case)) } else { None };
     let res = (|| -> Result<(), Fail> {
         e.open()?;
         for _ in 0..nops {
@@ -64,6 +66,10 @@ fn episode(ctx: &Ctx, case: u64, out: &mut Out) -> Result<(), (Fail, String)> {
         Ok(())
     })();
     e.close();
+    if let Some(s) = short {
+        out.count("episodes_with_short_writes", 1);
+        out.count("short_writes", s.done());
+    }
     out.evaluations += 1;
     out.count("ops", e.trace.len() as u64);
     out.count("sets", e.f.sets);
